@@ -193,7 +193,7 @@ Fixpoint max_states (S : list gst) (tr : list label) (m : nat) : nat :=
 (* ---------- the property's predicates on a recorded trace ---------- *)
 Definition is_label_of (i : nat) (l : label) : bool :=
   match label_conn l with Some j => Nat.eqb i j | None =>
-    match l with Acc j | SockClose j => Nat.eqb i j | _ => false end end.
+    match l with Acc j | SockClose j | SockCloseC j => Nat.eqb i j | _ => false end end.
 
 Definition lab_eqb_simple (a c : label) : bool :=
   match a, c with
@@ -301,7 +301,7 @@ Definition pstep (s : pscan) (l : label) : pscan :=
   | ClientGone i => let p := getp s i in
       setp s i (mkp (p_fb_late p) (p_acc_late p) (p_addr p) (p_closed p) (p_inflight p) (p_rt_late p) (p_must_close p)
                     true (p_connect p) (p_wrote p) (p_cli p) (p_cli_bad p) (p_eof p))
-  | SockClose i => let p := getp s i in
+  | SockClose i | SockCloseC i => let p := getp s i in
       setp s i (mkp (p_fb_late p) (p_acc_late p) (p_addr p) true (p_inflight p) (p_rt_late p) (p_must_close p)
                     (p_gone p) (p_connect p) (p_wrote p) (p_cli p) (p_cli_bad p) (p_eof p))
   | CliResp i full ch => let p := getp s i in
